@@ -2,6 +2,7 @@ package queryer
 
 import (
 	"context"
+	"fmt"
 	"net/http"
 
 	"github.com/buildbuildio/pebbles/common"
@@ -150,6 +151,11 @@ func (q *MultiOpQueryer) queryBatch(inputs []*requests.Request) ([]map[string]in
 	resps, err := q.fetch(inputsToFetch)
 	if err != nil {
 		return nil, err
+	}
+
+	// every request must be answered, otherwise results can't be matched with requests
+	if len(resps) != len(inputsToFetch) {
+		return nil, fmt.Errorf("expected %d responses from %s, got %d", len(inputsToFetch), q.url, len(resps))
 	}
 
 	// format the result as needed, reporting the errors of every failed request
